@@ -39,6 +39,10 @@ CHECKS = {
    text="Workloads of one or two calls (correctable streams with 1..3 server replies and early / never / slow quorum functions, cancelled quorum calls, futures, correctables, RPCs, multicasts; concurrent and sequential) with cancel threads, an optional stream reset or crash+restart and a timer-firing thread, all placed by the explorer at every instant within the deviation bound; afterwards all back-off timers are fired and a probe RPC with a fresh context must be delivered and answered with its own stamped reply, with no library thread left blocked on a lock."),
  "C12": dict(cat="fault_enumeration", ref="5.12", tech="stateless model checking with Manager.Close as free-running thread(s) placed at every instant within the deviation bound relative to in-flight calls (crash-point style enumeration); thread-exit and deadlock oracles at quiescence",
    text="9 in-flight call variants with never-ending contexts (and pairs) x send buffer {0,1,2} x node state {connected, down, in back-off} x handler answers / never answers x one or two concurrent Close calls scheduled at every point between visible operations within the deviation bound, then a post-Close call of rotating type and a further Close; Close on a WithNoConnect manager. Oracle: no panic, every Close returns, every in-flight and post-Close call returns (error where the API has one), no client library goroutine alive and every connection closed at the end."),
+ "C10": dict(cat="fault_enumeration", ref="5.10", tech="stateless model checking with exhaustive enumeration of stop/start/call scripts (fault sequences) and virtual back-off timers that the script fires or withholds",
+   text="Every script of length <= 4 (5) over {stop, start, call} ending in a call, node initially up or down (down at creation included), 3 call kinds, blocking and non-blocking dial, with the back-off timers fired after every event or never; observation after each call happens at quiescence without firing a timer. Oracle: the call is delivered to the node's current incarnation, its reply arrives without any back-off timer firing once the handler has returned, every accepted stream carries general and per-node metadata and triggers the connect callback exactly once."),
+ "C18": dict(cat="model_checking", ref="5.18", tech="stateless model checking with a state oracle read through an accessor (router tables) and the scheduler's thread table (per-call goroutines) at quiescent points",
+   text="9 (13) call variants x 7 ways of ending x send buffer, every call repeated twice on the same manager, all schedules within the deviation bound; after each round, once every targeted node has answered or its connection has failed, the router count of every node must be zero (one per round only for a node that never answers), no per-call goroutine may be alive, and nothing grows between rounds."),
 }
 
 NOT_YET = {}
